@@ -226,7 +226,9 @@ impl Sim {
         let awaiting = self.awaiting().len();
         let cred = self.cred_view();
         let attrs = Self::to_attrs(app);
-        let buf = vec![0u8; if small_buf { 24 } else { 8192 }];
+        // the caller's buffer is dirty: whatever the client does not write shows up in the packet
+        // a small buffer is one of several sizes around the header and the first attributes (selected by the method)
+        let buf = vec![0xA5u8; if small_buf { [24usize, 0, 19, 20, 28, 60, 100, 23][method as usize % 8] } else { 8192 }];
         let r = self.client.send_request(method_of(method), attrs, buf, at(self.now));
         let events = convert_events(self.client.events());
         let after = self.snapshot();
@@ -350,7 +352,7 @@ impl Sim {
         let cred = self.cred_view();
         let r = self
             .client
-            .send_indication(method_of(method), Self::to_attrs(app), vec![0u8; 8192]);
+            .send_indication(method_of(method), Self::to_attrs(app), vec![0xA5u8; 8192]);
         let events = convert_events(self.client.events());
         let after = self.snapshot();
         if before.outstanding != after.outstanding || before.timeouts != after.timeouts {
